@@ -199,10 +199,9 @@ double GammaQint(double x, double a)
 		};
 		if(x < tMin)
 			tMin = 0.0;
-		// Precision
-		double eps = Find_Epsilon(integrand, tMin, x, 1e-5);
-		// Integrate
-		gammaP = Integrate(integrand, tMin, x, eps);
+		// Integrate with adaptive Gauss-Kronrod. (Adaptive Simpson with an a-priori precision from three points can miss the narrow peak and converge falsely.)
+		gammaP = Integrate(integrand, tMin, x, "Gauss-Kronrod");
+		gammaP = std::min(1.0, std::max(0.0, gammaP));
 	}
 
 	return 1.0 - gammaP;
